@@ -3,6 +3,7 @@ package main
 import (
 	"sort"
 
+	cedar "github.com/cedar-policy/cedar-go"
 	"github.com/cedar-policy/cedar-go/types"
 	"github.com/cedar-policy/cedar-go/x/exp/schema"
 	"github.com/cedar-policy/cedar-go/x/exp/schema/validate"
@@ -15,6 +16,35 @@ import (
 func init() {
 	kinds["conform"] = runConform
 	kinds["ejsonschema"] = runEJSONSchema
+	kinds["gettag-message"] = runGetTagMessage
+}
+
+// gettag-message: <depth> -> (len N): the length of Validator.Policy's error text for an unguarded getTag whose key is <depth> nested
+// constant conditionals (probe for known finding F48: the text doubles with every level)
+func runGetTagMessage(payload []*Sx) *Sx {
+	d := int(mustInt64(payload[0].Atom))
+	var s schema.Schema
+	if err := s.UnmarshalCedar([]byte(`entity User tags String; action a appliesTo { principal: [User], resource: [User], context: {} };`)); err != nil {
+		return L(A("schema-error"))
+	}
+	rs, err := s.Resolve()
+	if err != nil {
+		return L(A("schema-resolve-error"))
+	}
+	key := `"k"`
+	for i := 0; i < d; i++ {
+		key = `(if true then ` + key + ` else "z")`
+	}
+	var p cedar.Policy
+	if err := p.UnmarshalCedar([]byte(`permit(principal, action, resource) when { principal.getTag(` + key + `) == "x" };`)); err != nil {
+		return L(A("policy-error"))
+	}
+	verr := validate.New(rs, validate.WithStrict()).Policy("p", (*xastPolicy)(p.AST()))
+	n := 0
+	if verr != nil {
+		n = len(verr.Error())
+	}
+	return L(A("len"), AI(n))
 }
 
 // ejsonschema: <schema text> <info> <enumvals> <json tree> -> (ok <store>) | (err): EntityMap.UnmarshalJSONWithSchema, the public path that
